@@ -63,7 +63,7 @@ func (a *analysis) fieldExists(root, path string) bool {
 	if cur == nil {
 		return false
 	}
-	for _, s := range strings.Split(path, ".") {
+	for _, s := range strings.Split(strings.TrimSuffix(path, ".*"), ".") {
 		st, isStruct := deref(cur).Underlying().(*types.Struct)
 		if !isStruct {
 			return false
@@ -232,6 +232,7 @@ func (a *analysis) result() *result {
 			rows[k] = r
 		}
 		r.Pos = append(r.Pos, ac.pos)
+		r.Paths = append(r.Paths, ac.path)
 	}
 	if len(immutableViolations) > 0 {
 		sort.Strings(immutableViolations)
@@ -240,6 +241,8 @@ func (a *analysis) result() *result {
 	for _, r := range rows {
 		sort.Strings(r.Pos)
 		r.Pos = uniq(r.Pos)
+		sort.Strings(r.Paths)
+		r.Paths = uniq(r.Paths)
 		res.Rows = append(res.Rows, *r)
 	}
 	sort.Slice(res.Rows, func(i, j int) bool {
@@ -276,7 +279,7 @@ func (a *analysis) result() *result {
 	}
 	for j, kn := range a.cfg.Known {
 		if !usedKnown[j] {
-			die("guards.json: known finding %s (%s %s) no longer matches an undisciplined access: remove the entry", kn.Finding, kn.Func, kn.Field)
+			res.StaleKnown = append(res.StaleKnown, fmt.Sprintf("access %s %s (%s)", kn.Func, kn.Field, kn.Finding))
 		}
 	}
 	for _, e := range exempt {
@@ -293,13 +296,38 @@ func (a *analysis) result() *result {
 			}
 		}
 	}
+	usedKE := make([]bool, len(a.cfg.KnownEdges))
 	for k, ps := range a.edgePos {
 		e := edgeOut{From: remap[k[0]], To: remap[k[1]], Pos: keys(ps)}
 		if len(e.Pos) > 6 {
 			e.Pos = e.Pos[:6]
 		}
-		res.Edges = append(res.Edges, e)
+		isKnown := false
+		for j, ke := range a.cfg.KnownEdges {
+			if ke.From == res.Locks[e.From].Name && ke.To == res.Locks[e.To].Name {
+				e.Known = ke.Finding
+				usedKE[j] = true
+				isKnown = true
+			}
+		}
+		if isKnown {
+			res.KnownEdges = append(res.KnownEdges, e)
+		} else {
+			res.Edges = append(res.Edges, e)
+		}
 	}
+	for j, ke := range a.cfg.KnownEdges {
+		if !usedKE[j] {
+			res.StaleKnown = append(res.StaleKnown, fmt.Sprintf("edge %s -> %s (%s)", ke.From, ke.To, ke.Finding))
+		}
+	}
+	sort.Slice(res.KnownEdges, func(i, j int) bool {
+		if res.KnownEdges[i].From != res.KnownEdges[j].From {
+			return res.KnownEdges[i].From < res.KnownEdges[j].From
+		}
+
+		return res.KnownEdges[i].To < res.KnownEdges[j].To
+	})
 	sort.Slice(res.Edges, func(i, j int) bool {
 		if res.Edges[i].From != res.Edges[j].From {
 			return res.Edges[i].From < res.Edges[j].From
@@ -307,6 +335,7 @@ func (a *analysis) result() *result {
 
 		return res.Edges[i].To < res.Edges[j].To
 	})
+	res.KnownCycle = findCycle(len(res.Locks), res.Edges, res.KnownEdges)
 	rank := rankCertificate(len(res.Locks), res.Edges)
 	for i := range res.Locks {
 		res.Locks[i].Rank = rank[i]
@@ -339,15 +368,20 @@ func (a *analysis) result() *result {
 	}
 	sort.Strings(res.InitOnly)
 	res.Unresolved = keys(a.unresolved)
+	res.LaterCallbacks = a.litCallees
+	res.DynamicCalls = a.dynAll
 
 	res.Summary.LockClasses = len(res.Locks)
 	res.Summary.GuardedFields = len(res.Fields)
 	res.Summary.AccessRows = len(res.Rows)
 	res.Summary.Edges = len(res.Edges)
+	res.Summary.KnownEdges = len(res.KnownEdges)
+	res.Summary.StaleKnown = len(res.StaleKnown)
 	res.Summary.Functions = len(a.order)
 	res.Summary.ExemptFields = len(res.Exempt)
 	res.Summary.InitOnlyFuncs = len(res.InitOnly) + len(a.cfg.InitFuncs)
 	res.Summary.Unresolved = len(res.Unresolved)
+	res.Summary.AddrTaken = len(a.addrTaken)
 
 	return res
 }
@@ -436,13 +470,23 @@ func rankCertificate(n int, edges []edgeOut) []int {
 			}
 		}
 		if !progressed {
-			break
-		}
-	}
-	for i := 0; i < n; i++ {
-		if !done[i] {
-			rank[i] = next
+			// a cycle: break it at the class with the fewest unranked
+			// predecessors, so that only the closing edges violate the rank
+			best := -1
+			for i := 0; i < n; i++ {
+				if !done[i] && (best < 0 || indeg[i] < indeg[best]) {
+					best = i
+				}
+			}
+			if best < 0 {
+				break
+			}
+			done[best] = true
+			rank[best] = next
 			next++
+			for _, j := range out[best] {
+				indeg[j]--
+			}
 		}
 	}
 
@@ -477,4 +521,99 @@ func (a *analysis) chain(f *types.Func, class int) string {
 	}
 
 	return funcName(f)
+}
+
+// printPaths prints, for review, every write access below a root type with
+// the locks held, and the number of reads per path.
+func (a *analysis) printPaths(root string) {
+	type info struct {
+		writes map[string]bool
+		reads  int
+		unl    int
+	}
+	m := map[string]*info{}
+	for _, ac := range a.accs {
+		if ac.root != root {
+			continue
+		}
+		i := m[ac.path]
+		if i == nil {
+			i = &info{writes: map[string]bool{}}
+			m[ac.path] = i
+		}
+		var hs []string
+		for _, l := range ac.held {
+			hs = append(hs, a.classByID(l.class))
+		}
+		tag := ""
+		if ac.init {
+			tag = " [init]"
+		}
+		if ac.fresh {
+			tag += " [fresh]"
+		}
+		if ac.top {
+			tag += " [top]"
+		}
+		if ac.write {
+			i.writes[fmt.Sprintf("%s %s held=%v%s", ac.fn, ac.pos, hs, tag)] = true
+		} else {
+			i.reads++
+			if len(hs) == 0 && !ac.init && !ac.fresh {
+				i.unl++
+			}
+		}
+	}
+	var ks []string
+	for k := range m {
+		ks = append(ks, k)
+	}
+	sort.Strings(ks)
+	fmt.Println("== paths of", root)
+	for _, k := range ks {
+		fmt.Printf("  %s: reads=%d (unlocked %d)\n", k, m[k].reads, m[k].unl)
+		for _, w := range keys(m[k].writes) {
+			fmt.Println("      W " + w)
+		}
+	}
+}
+
+// findCycle returns a cycle of the full edge relation through one of the
+// known edges ([a] for a self-loop a -> a; [a, b, …, z] for a -> b -> … -> z -> a),
+// the witness of the counterexample theorem; nil if there is no known edge.
+func findCycle(n int, edges, known []edgeOut) []int {
+	out := make([][]int, n)
+	for _, e := range append(append([]edgeOut{}, edges...), known...) {
+		out[e.From] = append(out[e.From], e.To)
+	}
+	for _, k := range known {
+		if k.From == k.To {
+			return []int{k.From}
+		}
+	}
+	for _, k := range known {
+		// shortest path k.To ~> k.From
+		prev := map[int]int{k.To: -1}
+		queue := []int{k.To}
+		for len(queue) > 0 {
+			x := queue[0]
+			queue = queue[1:]
+			if x == k.From {
+				var path []int
+				for y := x; y != -1; y = prev[y] {
+					path = append([]int{y}, path...)
+				}
+				// path = k.To … k.From ; cycle = k.From, k.To, …(without the final k.From)
+				return append([]int{k.From}, path[:len(path)-1]...)
+			}
+			for _, y := range out[x] {
+				if _, seen := prev[y]; !seen {
+					prev[y] = x
+					queue = append(queue, y)
+				}
+			}
+		}
+	}
+
+	return nil
 }
